@@ -165,6 +165,41 @@ pub fn make_tokens(ks: &[u64]) -> Vec<Token<'static>> {
     v
 }
 
+/// like `make_tokens`, but Number tokens are the literal 2 and an Identifier token at position i carries the lexeme `names[i mod len]` (the position is
+/// concrete, so a symbolic kind does not split the path here either)
+pub fn make_tokens_named(ks: &[u64], names: &[&'static str]) -> Vec<Token<'static>> {
+    let a = alphabet();
+    let lex = |i: u64| (a[i as usize].1.as_ptr() as usize, a[i as usize].1.len());
+    let two: &'static str = "2";
+    let (np, nl) = (two.as_ptr() as usize, two.len());
+    let (up, ul) = lex(UEXP);
+    let (sp_, sl) = lex(STR);
+    let mut v = Vec::with_capacity(ks.len() + 1);
+    for (i, &k) in ks.iter().enumerate() {
+        let kind: TokenKind = unsafe { std::mem::transmute([k as u8, 0u8]) };
+        let name = names[i % names.len()];
+        let (xp, xl) = (name.as_ptr() as usize, name.len());
+        let m_n = ((k == tag(NUM)) as usize).wrapping_neg();
+        let m_u = ((k == tag(UEXP)) as usize).wrapping_neg();
+        let m_s = ((k == tag(STR)) as usize).wrapping_neg();
+        let m_o = !(m_n | m_u | m_s);
+        let p = (xp & m_o) | (np & m_n) | (up & m_u) | (sp_ & m_s);
+        let l = (xl & m_o) | (nl & m_n) | (ul & m_u) | (sl & m_s);
+        let lexeme: &'static str = unsafe { std::str::from_utf8_unchecked(std::slice::from_raw_parts(p as *const u8, l)) };
+        v.push(Token {
+            kind,
+            lexeme,
+            span: sp(i),
+        });
+    }
+    v.push(Token {
+        kind: TokenKind::Eof,
+        lexeme: "",
+        span: sp(ks.len()),
+    });
+    v
+}
+
 // ------------------------------------------------------------------ canonical form of the real tree
 fn scalar_name(v: f64) -> String {
     if v.is_nan() {
